@@ -72,6 +72,12 @@ def programs(tier):
         for sa, sb in itertools.product(second, repeat=2):
             ms = [{"id": 0, "shape": xy, "types": {"x": a, "y": sa}, "prio": 0}, {"id": 1, "shape": xy, "types": {"x": b, "y": sb}, "prio": 0}]
             yield "2:two-positions", ms, [(n, m) for n in names for m in ("K0()", "K1()", "K3()")], None
+    # type[...] in a named second position behind a strictly positional first one (differing names / positional-only)
+    for first_shapes in (("x:N:0 y:N:0", "z:N:0 y:N:0"), ("x:P:0 y:N:0", "x:P:0 y:N:0"), ("x:N:0 y:N:0", "z:N:0 y:N:0 w:N:1")):
+        for (a, b) in itertools.combinations(sub, 2):
+            ms = [{"id": 0, "shape": first_shapes[0], "types": {first_shapes[0][0]: "K0", "y": a}, "prio": 0},
+                  {"id": 1, "shape": first_shapes[1], "types": {first_shapes[1][0]: "O", "y": b}, "prio": 0}]
+            yield "2c:type-second,strictly-positional-first", ms, [(m, n) for n in names for m in ("K0()", "K3()")], None
     # type[...] in the second position only
     for (a, b) in itertools.combinations(sub, 2):
         ms = [{"id": 0, "shape": xy, "types": {"x": "K0", "y": a}, "prio": 0}, {"id": 1, "shape": xy, "types": {"x": "O", "y": b}, "prio": 0}]
